@@ -13,7 +13,7 @@ EXPLANATION = (
     "argument. (R18.3) convert_triple's table, extracted from all paths: subject IRI|bnode|quoted, predicate IRI, object "
     "IRI|bnode|quoted|literal with xsd:string -> Simple (tested by `xsd::string == datatype` itself), other datatype -> "
     "Typed with that datatype, tagged -> LanguageTaggedString; every other shape yields Empty (the triple is skipped). "
-    "NOT decided: the round trip itself (rio_xml's writer and reader).")
+    "(R18.4) on the parse side the accessor helpers of rio/src/model.rs hand the back-end's strings over unchanged (conversions only; no trim / replace / case folding). NOT decided: the round trip itself (rio_xml's writer and reader).")
 
 RIO_TOKENS = {"rio_api::model::NamedNode": "NamedNode", "rio_api::model::BlankNode": "BlankNode",
               "rio_api::model::Literal": "Literal", "rio_api::model::Triple": "RioTriple"}
@@ -187,8 +187,37 @@ def convert_rule(ck, facts):
     ck.floor("R18.3", "conversion paths of convert_triple", len(paths), 20)
 
 
+def identity_adapter_rule(ck, facts):
+    """R18.4: on the parse side the adapter hands the back-end's strings over *unchanged*: every `MownStr` / wrapper built by
+    the accessor helpers of rio/src/model.rs (lexical_form, iri, bnode_id, datatype, language_tag, variable) derives from a
+    field of the rio term through conversions only (`into`, `from`, `new_unchecked`, `as_ref`, deref) - no `trim`, `replace`,
+    case folding or re-formatting, which would make the parsed dataset differ from what was written."""
+    from mirutil import TRANSPARENT
+    helpers = [f for f in facts.fns.values() if f.crate == "sophia_rio" and f.kind == "Fn" and re.search(r"rio/src/model\.rs$", f.file)
+               and re.search(r"^model::(lexical_form|iri|bnode_id|datatype|language_tag|variable)$", f.name)]
+    n = 0
+    for fn in sorted(helpers, key=lambda f: f.name):
+        ok_calls = r"convert::Into(<.*>)?>?::into$|convert::From(<.*>)?>?::from$|::new_unchecked$|::new$|convert::AsRef(<.*>)?>?::as_ref$|" \
+                   r"ops::Deref>?::deref$|borrow::Borrow(<.*>)?>?::borrow$|::is_ok$|::iriref$|::is_match$|core::panicking::|fmt::|option::Option"
+        bad = []
+        for bi, t in fn.calls():
+            nm = t["f"].get("name") or ""
+            if t["to"] is None or re.search(ok_calls, nm) or "debug_assert" in " ".join(t.get("exp") or []) or "assert" in " ".join(t.get("exp") or []):
+                continue
+            # any other call whose argument is the back-end's string and whose result reaches the return value
+            bad.append((nm, "%s:%s" % (t["file"], t["line"])))
+        n += 1
+        if bad:
+            ck.bad("R18.4", "R18.4@%s#transforms:%s" % (fn.name, bad[0][0].split("::")[-1]), "%s passes the back-end's string through %s: the adapter must "
+                   "hand tokens over unchanged (a literal's lexical form, whitespace included, is part of the term)" % (fn.name, bad[0][0]), bad[0][1])
+        else:
+            ck.ok("R18.4", "%s: the back-end's string is handed over unchanged (conversions only)" % fn.name)
+    ck.floor("R18.4", "accessor helpers of rio/src/model.rs", n, 5)
+
+
 def run(ck, facts, tier):
     facts.require_crates(["sophia_xml", "sophia_rio"])
+    identity_adapter_rule(ck, facts)
     serialize_rule(ck, facts)
     convert_rule(ck, facts)
     ck.assumptions = ["rio_xml's RdfXmlFormatter/RdfXmlParser implement RDF/XML (escaping, whitespace, QName split): not decided",
